@@ -115,6 +115,10 @@ def multi_flat_kernel(
                     kernel_result[ind + w_i] = 0
         ind += len(mset)
     kernel_result[target_ind] = 0
+    if mask_index is not None:
+        # a nullified mask contributes nothing as a target either (its own multiset is always in the window)
+        if window[0][target_ind] == mask_index:
+            kernel_result[:] = 0
 
     if normalize:
         temp = kernel_result.sum()
@@ -149,6 +153,10 @@ def multi_geometric_kernel(
                     kernel_result[ind + w_i] = 0
         ind += len(mset)
     kernel_result[target_ind] = 0
+    if mask_index is not None:
+        # a nullified mask contributes nothing as a target either (its own multiset is always in the window)
+        if window[0][target_ind] == mask_index:
+            kernel_result[:] = 0
 
     if normalize:
         temp = kernel_result.sum()
